@@ -1095,8 +1095,19 @@ def run(idx, rep, tier):
     _gg = k.cfg(_fg)
     _ini = [n for n, c in k.calls_named(_fg, '_init_group', 'self')]
     rep.floor('C03.R17', 'group installations', len(_ini), 1)
+    from ..flow import expr_sources as _es17
+    _rg = k.rd(_fg)
+
+    def _sized(a):
+        if any(is_call(x, 'bit_length') for x in ast.walk(a.ast)):
+            return True
+        for nm in [x for x in ast.walk(a.ast) if isinstance(x, ast.Name)]:
+            lv, fr = _es17(_gg, _rg, a.id, nm)
+            if any(is_call(x, 'bit_length') for e in lv for x in ast.walk(e)):
+                return True
+        return False
     _sz = [a.id for a in _gg.nodes if a.kind == 'atom' and a.ast is not None
-           and any(is_call(x, 'bit_length') for x in ast.walk(a.ast))]
+           and isinstance(a.ast, ast.Compare) and _sized(a)]
     for _n in _ini:
         _w = _gg.path(_gg.entry, _n.id, blocked_nodes=_sz)
         rep.check(bool(_sz) and _w is None, 'C03.R17',
